@@ -4,6 +4,7 @@ package main
 
 import (
 	"fmt"
+	"os"
 	"go/token"
 	"go/types"
 	"math"
@@ -30,6 +31,9 @@ func (ex *Exec) bufOf(st *State, p Val) (*BufV, *PtrV) {
 }
 
 func (ex *Exec) bufAppendSegs(st *State, b *BufV, segs []Seg) {
+	if os.Getenv("ABSDEBUG") != "" {
+		fmt.Fprintf(os.Stderr, "bufAppend %p += %s\n", b, arrayString(&ArrayV{Segs: segs}))
+	}
 	b.Data.Segs = normSegs(append(append([]Seg{}, b.Data.Segs...), segs...))
 }
 
@@ -213,7 +217,41 @@ func (ex *Exec) libSummary(fr *Frame, st *State, fn *ssa.Function, args []Val, x
 		return one(nil)
 	case "time.Now":
 		return one(ex.retTop(st, resT, "now"))
-	case "io.ReadFull", "io.ReadAtLeast":
+	case "io.ReadFull":
+		// over a tracked bytes.Reader the result is exact
+		if riv, ok := args[0].(*IfaceV); ok && riv.Dyn != nil && riv.Dyn.String() == "*bytes.Reader" {
+			if r, ok := ex.rdrOf(st, riv.V); ok {
+				if buf, ok := args[1].(*SliceV); ok && !buf.Unk {
+					remaining := st.Arith(token.SUB, r.Src.Len, r.Pos, pos)
+					ge, known := st.Decide(">=", remaining, buf.Len)
+					mkFail := func(s *State) callRes {
+						n := s.freshInt("n", 64, true)
+						return callRes{st: s, ret: &TupleV{Vs: []Val{n, &IfaceV{Unk: true, NonNil: true}}}}
+					}
+					if known && ge {
+						if c, ok := st.ConstOf(buf.Len); ok && c == 0 {
+							return one(&TupleV{Vs: []Val{mkConst(0, 64, true), nilErr()}})
+						}
+						return []callRes{ex.readerCopy(st, r, buf, buf.Len, pos)}, true
+					}
+					if known && !ge {
+						return []callRes{mkFail(st)}, true
+					}
+					st2 := st.Clone()
+					var out []callRes
+					if st2.Assume("<", remaining, buf.Len) {
+						out = append(out, mkFail(st2))
+					}
+					if st.Assume(">=", remaining, buf.Len) {
+						r2, _ := ex.rdrOf(st, riv.V)
+						out = append(out, ex.readerCopy(st, r2, buf, buf.Len, pos))
+					}
+					return out, true
+				}
+			}
+		}
+		fallthrough
+	case "io.ReadAtLeast":
 		// fill-or-fail into the buffer: content unknown, err unknown; on nil error the buffer is full
 		if sl, ok := args[1].(*SliceV); ok && !sl.Unk && !sl.Nil {
 			if arr, ok := st.heap[sl.Obj].(*ArrayV); ok {
@@ -227,6 +265,34 @@ func (ex *Exec) libSummary(fr *Frame, st *State, fn *ssa.Function, args []Val, x
 		}
 	case "io.CopyN":
 		st.Events = append(st.Events, Event{Kind: "source-read", Args: []Val{args[2]}, Pos: pos})
+		// exact over a tracked bytes.Reader when the destination is not tracked (e.g. io.Discard)
+		if riv, ok := args[1].(*IfaceV); ok && riv.Dyn != nil && riv.Dyn.String() == "*bytes.Reader" {
+			if r, ok := ex.rdrOf(st, riv.V); ok {
+				w, _ := args[0].(*IfaceV)
+				n, _ := args[2].(*IntV)
+				if n != nil && (w == nil || w.Dyn == nil || w.Dyn.String() != "*bytes.Buffer") {
+					remaining := st.Arith(token.SUB, r.Src.Len, r.Pos, pos)
+					adv := func(s *State, by *IntV) {
+						for id, v := range s.heap {
+							if rv, ok := v.(*RdrV); ok && rv.Src.Obj == r.Src.Obj && s.sameInt(rv.Pos, r.Pos) {
+								s.heap[id] = &RdrV{Src: rv.Src, Pos: s.Arith(token.ADD, rv.Pos, by, pos)}
+							}
+						}
+					}
+					st2 := st.Clone()
+					var out []callRes
+					if st2.Assume("<", remaining, n) {
+						adv(st2, remaining)
+						out = append(out, callRes{st: st2, ret: &TupleV{Vs: []Val{remaining, &IfaceV{Unk: true, NonNil: true}}}})
+					}
+					if st.Assume(">=", remaining, n) {
+						adv(st, n)
+						out = append(out, callRes{st: st, ret: &TupleV{Vs: []Val{n, nilErr()}}})
+					}
+					return out, true
+				}
+			}
+		}
 		// destination may be a tracked buffer: append unknown run of unknown length <= n
 		if w, ok := args[0].(*IfaceV); ok && w.Dyn != nil && w.Dyn.String() == "*bytes.Buffer" {
 			if b, _ := ex.bufOf(st, w.V); b != nil {
@@ -313,6 +379,9 @@ func (ex *Exec) readerCopy(st *State, r *RdrV, buf *SliceV, n *IntV, pos string)
 		if !ex.arrReplace(st, arr, st.TermOf(buf.Off), segs, st.TermOf(n)) {
 			ok = false
 		}
+	}
+	if os.Getenv("ABSDEBUG") != "" {
+		fmt.Fprintf(os.Stderr, "readerCopy src off=%s len=%s ok=%v ok2=%v segs=%s\n", src.Off, src.Len, ok, ok2, arrayString(&ArrayV{Segs: segs}))
 	}
 	if (!ok || !ok2) && ok2 {
 		st.heap[buf.Obj] = &ArrayV{Elem: arr.Elem, Segs: []Seg{{Run: &Run{Src: ex.syms.Fresh("rd", 8, false).Name, Off: constTerm(0), Len: arrLen(arr)}}}}
